@@ -80,3 +80,13 @@ package federation
 //@   at `assign allNull` requires rhs0 ==> allNull
 //@   at `assign allNull` ghost an = rhs0
 //@   ensures res1 == nil ==> !an
+
+// C16: the federation _service field gives out the SDL only when introspection is enabled for this operation;
+// the SDL is assembled after the gate (nothing cached ahead of it).
+//@ trusted strings.Join(elems, sep) (s)
+//@   nopanic
+//@   pure
+//@ family servicegate [C16]
+//@   callsite Join: requires !ec.DisableIntrospection
+//@   ensures old(ec.DisableIntrospection) ==> res1 != nil && res0.SDL == ""
+//@   ensures !old(ec.DisableIntrospection) ==> res1 == nil
